@@ -57,10 +57,9 @@ void _ZN3tbb6detail2r120nested_arena_contextC2ERNS1_11thread_dataERNS1_5arenaEm(
 void _ZN3tbb6detail2r120nested_arena_contextD2Ev(struct S_class_tbb__detail__r1__nested_arena_context* s) { VP_ASSERT(e_nested == 1, "leave without enter"); e_nested = 0; vp_leave_slot(&MA.a, (u32)e_slot); }
 #endif
 /* r1::wait(wo, ctx): the entrant owns a slot and runs the dispatch loop until wo is released. Contract stub: take the recorded delegated task if it
- * is still there and execute it (REAL delegated_task::execute, one atomic step: no monitor lock is ever held across a context switch in this
- * unit), then return once wo is released. */
+ * is still there and run it inline (functor, wait_context release, completion flag; see vp_dt_run_inline), then return once wo is released. */
 void _ZN3tbb6detail2r14waitERNS0_2d112wait_contextERNS2_18task_group_contextE(struct S_class_tbb__detail__d1__wait_context* wo, struct S_class_tbb__detail__d1__task_group_context* ctx) {
-  if (!task_taken && n_enq) { task_taken = 1; vp_changed = 1; vp_dt_execute(enq_task, cur_td()); }
+  if (!task_taken && n_enq) { task_taken = 1; vp_changed = 1; vp_dt_run_inline(enq_task); }
   if (!vp_wait_ctx_done(wo)) VP_BLOCK();
 }
 /* worker side (SIDE 2): the task becomes available once enqueued; null if the entrant needed no delegation */
